@@ -186,7 +186,7 @@ func genFieldOptions(t *rapid.T, typ form.FieldType) (opts []form.Option, desc [
 	}
 	no := 0
 	if typ == form.TypeList || typ == form.TypeListMulti || rapid.IntRange(0, 5).Draw(t, "optsAnyway") == 0 {
-		no = rapid.IntRange(0, 3).Draw(t, "nopts")
+		no = listLen(t, "nopts", 3)
 	}
 	for i := 0; i < no; i++ {
 		l, v := genText().Draw(t, "optlabel"), genText().Draw(t, "optvalue")
